@@ -104,7 +104,7 @@ func verifRing(capTok, opsTok string) string {
 		case 'g':
 			a, ok := m.Get(verifID(op[1:]))
 			if !ok {
-				gets = append(gets, "-")
+				gets = append(gets, "_")
 			} else {
 				gets = append(gets, verifAddrPrint(a))
 			}
